@@ -289,6 +289,8 @@ def ext_comprehension(eng, args, kw, node):
     """[f(x) for x in L] over a symbolic sequence L: fresh sequence r, len(r)==len(L), r[j]==f(L[j])."""
     n, kind, it = args
     src = lib.seq_of(eng, it)
+    if src is None and kind == "list" and _set_term(eng, it) is not None:
+        return ext_set_comprehension(eng, args, kw, node)     # [f(x) for x in a_set ...]: only its set of values matters
     if src is None:
         raise Unsupported("comprehension over %r" % (it,))
     g = n.generators[0]
@@ -302,6 +304,7 @@ def ext_comprehension(eng, args, kw, node):
     i = z3.Int(eng.fresh_name("comp.i"))
     ln = z3.Length(src.term)
     saved = dict(eng.st.vars)
+    mark = len(eng.fresh_log)
     eng.guards.append(z3.And(i >= 0, i < ln))
     try:
         eng.assign(g.target, P(src.ty.args[0], src.term[i]))
@@ -316,11 +319,25 @@ def ext_comprehension(eng, args, kw, node):
         return Special("mapped", src=src, body=v.term, ivar=i)
     if not isinstance(v, P):
         raise Unsupported("comprehension element %r" % (v,))
+    # symbols created while evaluating the element stand for ONE element: generalise them to functions of the index
+    created = set(eng.fresh_log[mark:])
+    subs = []
+    stack, seen = [v.term], set()
+    while stack:
+        t = stack.pop()
+        if t.get_id() in seen:
+            continue
+        seen.add(t.get_id())
+        if z3.is_app(t):
+            if t.num_args() == 0 and t.decl().kind() == z3.Z3_OP_UNINTERPRETED and t.decl().name() in created:
+                subs.append(t)
+            stack.extend(t.children())
     r = z3.Const(eng.fresh_name("comp"), sort_of(SeqT(v.ty)))
     eng.st.pc.append(z3.Length(r) == ln)
     j = z3.Int(eng.fresh_name("comp.j"))
+    pairs = [(i, j)] + [(c, z3.Function(eng.fresh_name("comp.fn"), z3.IntSort(), c.sort())(j)) for c in subs]
     eng.st.schemas.append(Schema("comp.elem", [j], z3.Implies(z3.And(j >= 0, j < ln),
-                                                               r[j] == z3.substitute(v.term, (i, j)))))
+                                                               r[j] == z3.substitute(v.term, *pairs))))
     return lib.alloc(eng, Ty("list", v.ty), P(SeqT(v.ty), r), "cell.comp")
 
 
@@ -531,6 +548,18 @@ def ext_join(eng, args, kw, node):
     sep, it = args
     eng.used_assumptions.add("E-strws")
     sq = lib.seq_of(eng, it)
+    if sq is None and _set_term(eng, it) is not None:
+        # joining a set: the order of the pieces is the set's iteration order (depends on the hash seed)
+        st_ = _set_term(eng, it)
+        nd = z3.Const(eng.fresh_name("nondet.set_order"), z3.SeqSort(sort_of(st_.ty.args[0])))
+        eng.nondet.append(("iteration order of a set (str.join over a set)", nd))
+        sq = P(SeqT(st_.ty.args[0]), nd)
+    if sq is None and isinstance(it, Special) and it.tag == "genexp":
+        try:
+            items = lib.iter_concrete(eng, it)
+        except Unsupported:
+            items = None
+            sq = lib.seq_of(eng, lib.genexp_as_list(eng, it))
     if sq is None:
         try:
             items = lib.iter_concrete(eng, it)
@@ -784,3 +813,141 @@ def ext_opaque_pattern_sub(eng, args, kw, node):
     if isinstance(repl, Fun):
         return eng.resub_callable(None, repl, text, node, pattern_val=pat)
     raise Unsupported("sub with a template on a run-time pattern")
+
+
+# ---------------------------------------------------------------- sets: images, filters, union, emptiness; sorted()
+def _set_term(eng, v):
+    """array term of a set value (P set or set cell); None if not a set"""
+    if isinstance(v, OptV):
+        v = v.val
+    c = lib.cell(eng, v)
+    if isinstance(c, P) and c.ty.kind == "set":
+        return c
+    if isinstance(c, Conc) and isinstance(c.v, (set, frozenset)) and len(c.v) > 50:
+        import hashlib
+        h = hashlib.sha1(repr(sorted(c.v)).encode()).hexdigest()[:8]
+        return P(SetT(STR), z3.Const("constset_" + h, SetS))
+    return None
+
+
+@R.external("comprehension.set")
+def ext_set_comprehension(eng, args, kw, node):
+    """{f(x) for x in S if c(x)} over a symbolic set or list: fresh set R with
+         forall x. x in S /\\ c(x) => f(x) in R          (every image is in R)
+         forall y. y in R => pre(y) in S /\\ c(pre(y)) /\\ f(pre(y)) == y     (nothing else; pre = skolem function)"""
+    n, kind, it = args
+    g = n.generators[0]
+    st_ = _set_term(eng, it)
+    sq = lib.seq_of(eng, it) if st_ is None else None
+    if st_ is None and sq is None:
+        raise Unsupported("set comprehension over %r" % (it,))
+    et = st_.ty.args[0] if st_ is not None else sq.ty.args[0]
+    x = z3.Const(eng.fresh_name("scomp.x"), sort_of(et))
+    member = z3.Select(st_.term, x) if st_ is not None else z3.Contains(sq.term, z3.Unit(x))
+    saved = dict(eng.st.vars)
+    eng.guards.append(member)
+    try:
+        eng.assign(g.target, P(et, x))
+        conds = [eng.truth(eng.ev(c)) for c in g.ifs]
+        v = eng.ev(n.elt)
+    finally:
+        eng.guards.pop()
+        eng.st.vars = saved
+    if not isinstance(v, P):
+        raise Unsupported("set comprehension element %r" % (v,))
+    cond = z3.And(conds) if conds else z3.BoolVal(True)
+    Rs = z3.Const(eng.fresh_name("scomp"), z3.ArraySort(sort_of(v.ty), z3.BoolSort()))
+    pre = z3.Function(eng.fresh_name("scomp.pre"), sort_of(v.ty), sort_of(et))
+    y = z3.Const(eng.fresh_name("scomp.y"), sort_of(v.ty))
+    eng.st.schemas.append(Schema("scomp.image", [x], z3.Implies(z3.And(member, cond), z3.Select(Rs, v.term))))
+    back = z3.substitute(z3.And(member, cond, v.term == y), (x, pre(y)))
+    eng.st.schemas.append(Schema("scomp.only", [y], z3.Implies(z3.Select(Rs, y), back)))
+    ty = Ty("setcell", v.ty)
+    return lib.alloc(eng, ty, P(SetT(v.ty), Rs), "cell.scomp")
+
+
+_comp2 = R.ext["comprehension"]
+R.ext["comprehension"] = lambda eng, args, kw, node: ext_set_comprehension(eng, args, kw, node) if args[1] == "set" \
+    else _comp2(eng, args, kw, node)
+_make_set0 = R.ext["make_set"]
+
+
+def _make_set(eng, args, kw, node):
+    src = args[0]
+    if isinstance(src, Ref) and src.ty.kind == "setcell":
+        c = eng.st.heap[src.rid]
+        if isinstance(c, P):
+            return lib.alloc(eng, src.ty, P(c.ty, c.term), "cell.set")
+    return _make_set0(eng, args, kw, node)
+
+
+R.ext["make_set"] = _make_set
+_upd0 = R.ext["cell.update"]
+
+
+def _set_update(eng, args, kw, node):
+    recv, other = args
+    c = eng.st.heap[recv.rid]
+    o = _set_term(eng, other)
+    if o is not None:
+        if isinstance(c, Special) and c.tag == "emptyset":
+            eng.st.heap[recv.rid] = P(o.ty, o.term)
+            return NoneV()
+        if isinstance(c, P) and c.ty.kind == "set":
+            new = z3.Const(eng.fresh_name("set.union"), c.term.sort())
+            xx = z3.Const(eng.fresh_name("set.x"), sort_of(c.ty.args[0]))
+            eng.st.schemas.append(Schema("set.union2", [xx], z3.Select(new, xx) == z3.Or(z3.Select(c.term, xx), z3.Select(o.term, xx))))
+            eng.st.heap[recv.rid] = P(c.ty, new)
+            return NoneV()
+    return _upd0(eng, args, kw, node)
+
+
+R.ext["cell.update"] = _set_update
+
+
+@R.external("sorted")
+def ext_sorted(eng, args, kw, node):
+    """sorted(xs, key=...): a function of the *set* of elements iff the key is injective (its last component is the
+    element itself, or there is no key); otherwise the result of sorting a set depends on iteration order."""
+    src = args[0]
+    key = kw.get("key")
+    st_ = _set_term(eng, src)
+    sq = lib.seq_of(eng, src) if st_ is None else None
+    if st_ is None and sq is None:
+        raise Unsupported("sorted of %r" % (src,))
+    injective = key is None
+    tag = "natural"
+    if isinstance(key, Fun) and key.kind == "lambda":
+        import ast as _ast
+        body = key.node.body
+        p0 = key.node.args.args[0].arg
+        last = body.elts[-1] if isinstance(body, _ast.Tuple) and body.elts else body
+        injective = isinstance(last, _ast.Name) and last.id == p0
+        tag = _ast.unparse(body)
+    et = (st_ or sq).ty.args[0]
+    base = (st_ or sq).term
+    import hashlib
+    f = uf("sorted_" + hashlib.sha1(tag.encode()).hexdigest()[:6], base.sort(), z3.SeqSort(sort_of(et)))
+    r = f(base)
+    if st_ is not None and not injective:
+        nd = z3.Const(eng.fresh_name("nondet.set_order"), z3.SeqSort(sort_of(et)))
+        eng.nondet.append(("iteration order of a set (sorted with a non-injective key)", nd))
+        r = nd
+    x = z3.Const(eng.fresh_name("sorted.x"), sort_of(et))
+    member = z3.Select(st_.term, x) if st_ is not None else z3.Contains(sq.term, z3.Unit(x))
+    eng.st.schemas.append(Schema("sorted.same_elements", [x], z3.Contains(r, z3.Unit(x)) == member))
+    return lib.alloc(eng, Ty("list", et), P(SeqT(et), r), "cell.sorted")
+
+
+@R.external("re.escape")
+def ext_re_escape(eng, args, kw, node):
+    if isinstance(args[0], Conc):
+        import re as _re
+        return Conc(_re.escape(args[0].v))
+    return P(STR, uf("re_escape", S, S)(eng.term(args[0], STR)))
+
+
+@R.external("meth.Pattern.search")
+def ext_opaque_pattern_search(eng, args, kw, node):
+    eng.used_assumptions.add("E-resub")
+    return OptV(z3.Bool(eng.fresh_name("search.found")), Special("match", text=z3.Const(eng.fresh_name("match.text"), S), groups={}))
